@@ -244,3 +244,73 @@ package verifspec
 //@ func st.Gap_Fallthrough2
 //@ property S01
 //@   ensures x == 1 ==> result == 1
+
+//@ func st.P.incVal
+//@ property S01
+//@ func st.P.incPtr
+//@ property S01
+//@   requires p.x < 1000 && p.x > -1000
+//@   assigns p.x
+//@   ensures p.x == old(p.x) + 1
+//@ func st.Ok_ValueReceiver
+//@ property S01
+//@   requires p != nil
+//@   ensures result == old(p.x)
+//@ func st.Bad_PtrReceiver
+//@ property S01
+//@   requires p != nil && p.x == 1
+//@   ensures result == 1
+//@ func st.Ok_ElemCopy
+//@ property S01
+//@   requires len(s) > 0
+//@   ensures result == old(s)[0].x
+//@ func st.Bad_ElemWrite
+//@ property S01
+//@   requires len(s) > 0
+//@   ensures result == old(s)[0].x
+//@ func st.Ok_RangeValueCopy
+//@ property S01
+//@   loop 1 invariant 0 <= $i1 && $i1 <= len(s)
+//@   ensures len(s) > 0 ==> result == old(s)[0].x
+//@ func st.Ok_Shadow
+//@ property S01
+//@   ensures result == a
+//@ func st.Bad_Shadow
+//@ property S01
+//@   ensures result == a
+//@ func st.Ok_DivTrunc
+//@ property S01
+//@   results q r
+//@   ensures q * 2 + r == a && (a >= 0 ==> r >= 0) && (a < 0 ==> r <= 0)
+//@ func st.Bad_DivTrunc
+//@ property S01
+//@   ensures result * 2 <= a
+//@ func st.Ok_CommaOk
+//@ property S01
+//@   ensures !has(m, "k") ==> result == -1
+//@ func st.Bad_CommaOk
+//@ property S01
+//@   ensures !has(m, "k") ==> result == -1
+//@ func st.Ok_Copy
+//@ property S01
+//@   ensures result == min(len(d), len(s))
+//@ func st.Bad_Copy
+//@ property S01
+//@   requires len(d) > 0 && len(s) > 0
+//@   ensures result == old(d)[0]
+//@ func st.Ok_StrConcat
+//@ property S01
+//@   requires len(a) < 1000 && len(b) < 1000
+//@   ensures result == len(a) + len(b)
+//@ func st.Bad_StrConcat
+//@ property S01
+//@   requires len(a) > 0 && len(b) > 0
+//@   ensures result == b[0]
+//@ func st.Ok_Embedded
+//@ property S01
+//@   requires o != nil
+//@   ensures result == 3
+//@ func st.Bad_Embedded
+//@ property S01
+//@   requires o != nil
+//@   ensures result == 3
